@@ -28,6 +28,7 @@ var registry = map[string]check{
 	"C15": {"model_checking", checks.C15},
 	"C09": {"model_checking", checks.C09},
 	"C10": {"model_checking", checks.C10},
+	"C11": {"model_checking", checks.C11},
 	"C12": {"fault_enumeration", checks.C12},
 	"C13": {"model_checking", checks.C13},
 	"C16": {"model_checking", checks.C16},
@@ -36,13 +37,22 @@ var registry = map[string]check{
 	"C19": {"exploration", checks.C19},
 }
 
+// subcommands registered by optional (build-tagged) files.
+var subcommands = map[string]func([]string) int{}
+
 func main() {
 	if len(os.Args) < 2 {
 		fmt.Println("usage: mc <property-id> | replay <file>")
 		os.Exit(2)
 	}
+	if os.Args[1] == "c11-race" {
+		os.Exit(checks.C11Race(os.Args[2:]))
+	}
 	if os.Args[1] == "c17-child" {
 		os.Exit(checks.C17Child(os.Args[2:]))
+	}
+	if f, ok := subcommands[os.Args[1]]; ok {
+		os.Exit(f(os.Args[2:]))
 	}
 	if os.Args[1] == "c14-gen" {
 		os.Exit(checks.C14Gen())
